@@ -68,7 +68,13 @@ local function validate_impl()
   return table.concat(out, "\n")
 end
 
+-- the environment as the script's top-level chunk sees it (before blockwatch
+-- fetches `validate`): a capability captured here stays usable later
+local TOP_OK, TOP = pcall(validate_impl)
+
 function validate(ctx, content)
   local ok, res = pcall(validate_impl)
-  if ok then return res else return "PROBE-ERROR " .. tostring(res) end
+  if not ok then return "PROBE-ERROR " .. tostring(res) end
+  if not TOP_OK then return "PROBE-ERROR top-level " .. tostring(TOP) end
+  return "PHASE top\n" .. TOP .. "\nPHASE call\n" .. res
 end
